@@ -198,6 +198,13 @@ def run(tier):
     for ck, pn in BOOLS:
         for v in (True, False):
             vectors["%s.%s=%s" % (ck, pn, v)] = {ck: {pn: v}}
+    # edge values for the front-end differential (a) only: zero and a negative number are values like any other
+    # ("the value given is the value the checker uses"); they take no part in the boundary analysis below
+    EDGE = {}
+    for fam, (ck, pn, pred, doc) in FAMILIES.items():
+        for t in (0, -1):
+            EDGE["%s=%d" % (fam, t)] = (ck, pn, t)
+            vectors.setdefault("%s=%d" % (fam, t), {ck: {pn: t}})
     work = vlib.mktmp("c14w-")
     names = sorted(vectors)
     shards = vlib.shard(names, vlib.NCPU)
@@ -311,6 +318,7 @@ def run(tier):
     probes = [("hp=7", "hugeParam", "sizeThreshold", 7), ("rv=9", "rangeValCopy", "sizeThreshold", 9), ("re=11", "rangeExprCopy", "sizeThreshold", 11), ("tr=2", "tooManyResultsChecker", "maxResults", 2),
               ("nr=3", "nestingReduce", "bodyWidth", 3), ("ie=4", "ifElseChain", "minThreshold", 4), ("cc=12", "commentedOutCode", "minLength", 12)]
     probes = [p for p in probes if p[0] in vectors] + [("%s.%s=%s" % (ck, pn, v), ck, pn, v) for ck, pn in BOOLS for v in (True, False)]
+    probes += [(vec, ck, pn, t) for vec, (ck, pn, t) in sorted(EDGE.items())]
     # make sure the numeric probes exist as vectors (quick tier thins the lists)
     missing = [p for p in [("hp=7", "hugeParam", "sizeThreshold", 7), ("rv=9", "rangeValCopy", "sizeThreshold", 9), ("re=11", "rangeExprCopy", "sizeThreshold", 11)] if p[0] not in vectors]
     line_re = re.compile(r"^(\S+?\.go):(\d+):(\d+): (\w+): (.*)$")
